@@ -939,6 +939,12 @@ def nd_flatten(ex, self, args, kw):
 @method("NDArray", "tobytes")
 def nd_tobytes(ex, self, args, kw):
     from .libfile import BytesVal
+    order = kw.get("order", args[0] if args else "C")
+    if order not in ("C", "F", None):
+        raise Unsupported(f"tobytes(order={order!r})")
+    if order == "F" and self.ndim > 1:
+        e, i = self.snapshot()
+        return BytesVal([("ser", NDArray(list(self.shape), e, self.dtype, i), "F")])
     if self.ndim == 1 and self.flat_of is not None:
         return BytesVal([("ser", a, order) for a, order in self.flat_of])
     if self.ndim == 1:
